@@ -149,7 +149,11 @@ func (d *Driver) execExtra(st *Step, b *Browser) bool {
 			w.Log.Note("flow_start %s: flow did not reach %s", st.Name, stopAt)
 		}
 	case "pending":
-		d.pending(st, b)
+		if st.Twin != nil {
+			d.twin(st)
+		} else {
+			d.pending(st, b)
+		}
 	case "follow":
 		// continue from the Location of this browser's last exchange
 		loc := d.lastLoc[b.Name]
@@ -628,6 +632,9 @@ func (d *Driver) restart(st *Step) {
 		if err := w.BootProxy(); err != nil {
 			w.Log.Note("proxy restart failed: %v", err)
 		}
+		if w.Cfg.Doc != nil {
+			d.O.onBoot() // C14: every load of the document is judged
+		}
 	case "auth":
 		w.StopNode(AuthHost)
 		if w.authMux != nil {
@@ -635,6 +642,12 @@ func (d *Driver) restart(st *Step) {
 			w.authMux = nil
 		}
 		d.O.noteAuthRestart()
+		if st.NewCfg != nil {
+			// the authenticator comes back with another configuration (same secrets unless the plan says otherwise)
+			w.Cfg = *st.NewCfg
+			d.O.m = NewModel(w.Cfg)
+			d.P.Cfg = w.Cfg
+		}
 		if err := w.BootAuth(); err != nil {
 			w.Log.Note("auth restart failed: %v", err)
 		}
